@@ -404,7 +404,14 @@ def cases(ctx):
             def snap(sp):
                 return [sp[0]] + [[round(v[0] / unit) * unit, round(v[1] / unit) * unit] for v in sp[1:]]
             g1, g2 = [snap(sp) for sp in specs], [snap(sp) for sp in s2]
-            if all(sp[1] != sp[-1] for sp in g1 + g2):
+            def key(sp):
+                return (sp[0], tuple(map(tuple, sp[1:])))
+
+            def rkey(sp):
+                return (sp[0], tuple(map(tuple, sp[:0:-1])))
+            shared = {key(sp) for sp in g1} & ({key(sp) for sp in g2} | {rkey(sp) for sp in g2})
+            # (two paths that share a whole segment are outside intersect's documented scope: it asserts)
+            if all(sp[1] != sp[-1] for sp in g1 + g2) and not shared:
                 specs, s2, grid = g1, g2, True
                 pts = [[round(z[0] / unit) * unit + rng.choice([0, 0.5]) * unit, round(z[1] / unit) * unit] for z in pts]
         yield {'kind': 'closed', 'segs': specs, 'other': s2, 'rel': rel, 'pts': pts, 'outs': outs, 'grid': grid,
@@ -467,7 +474,11 @@ def run_case(ctx, case):
             try:
                 q.is_contained_by(p)
             except Exception as e:   # noqa
-                if any(type(s).__name__ == 'Arc' for s in list(p) + list(q)):
+                if isinstance(e, AssertionError) and any(a == b or a == b.reversed() for a in p for b in q):
+                    # two paths sharing a whole segment: outside intersect's documented scope ("will fail if the two
+                    # segments coincide for more than a finite collection of points")
+                    ctx.note('is_contained_by_asserted_on_shared_segment')
+                elif any(type(s).__name__ == 'Arc' for s in list(p) + list(q)):
                     ctx.note('is_contained_by_raised_with_arcs:%s' % type(e).__name__)
                 else:
                     raise
